@@ -57,6 +57,8 @@ class Script:
         self.cur_draw = 0
         self.draw_log = []
         self.finishing = False
+        self.deleg_parent = {}           # fid of a live delegate -> (fid of the frame delegating to it, does that frame catch)
+        self._deleg_entry = None         # (event, draw mark) of a delegate whose first entry is about to happen
 
     # ---- bookkeeping -------------------------------------------------------------------
     def _new_fid(self, frame):
@@ -67,11 +69,25 @@ class Script:
         return self.nfr
 
     def _finish(self, fid):
+        self.deleg_parent.pop(fid, None)
         frame = self.keep.pop(fid, None)
         if frame is not None:
             self.frames.pop(id(frame), None)
             self.done_ids.add(id(frame))
         self.done.add(fid)
+
+    def _finish_raising(self, fid):
+        """fid ends with an exception (already logged as Raise / Propagate): the frames delegating to it that do
+        not catch end with the same exception, innermost first."""
+        x = fid
+        while x in self.deleg_parent and not self.deleg_parent[x][1]:
+            par = self.deleg_parent[x][0]
+            self._finish(x)
+            self.emit(ev="Propagate", fid=par)
+            if self.stack and self.stack[-1] == par:
+                self.stack.pop()
+            x = par
+        self._finish(x)
 
     def fid_of(self, frame):
         return self.frames.get(id(frame))
@@ -102,8 +118,19 @@ class Script:
             self._pending_entry["draw"] = self.cur_draw
             self.emit(**self._pending_entry)
             self._pending_entry = None
+        if self._deleg_entry is not None:    # a delegate has just been entered: was the sampling RNG consulted for it?
+            ev, mark = self._deleg_entry
+            self._deleg_entry = None
+            ev["drawn"] = len(self.draw_log) > mark
         if not self.stack or self.stack[-1] != fid:
-            self.stack.append(fid)
+            # a resumed delegation chain: the frames delegating to this one are running below it
+            chain, x = [fid], fid
+            while x in self.deleg_parent:
+                x = self.deleg_parent[x][0]
+                chain.append(x)
+            for x in reversed(chain):
+                if x not in self.stack:
+                    self.stack.append(x)
         a = self._peek()
         if a is None:                        # script exhausted: wind the program down
             self.finishing = True
@@ -112,15 +139,28 @@ class Script:
         op = a["op"]
         if op in ("Call", "Create", "Resume", "Throw", "Drop"):
             return ("do_catch" if a.get("catch", True) else "do"), a
+        if op == "Delegate":
+            return ("deleg_catch" if a.get("catch", True) else "deleg"), a
         if a.get("id") not in (None, fid):
             raise ScriptError("script wants frame %s to %s but frame %s is running" % (a.get("id"), op, fid))
         if op == "Yield":
-            self.emit(ev="Yield", fid=fid, v=self.absval(a["val"]))
-            self.stack.pop()
+            # a value yielded by a delegate is yielded by every frame of the chain (`yield from`); all are suspended
+            x = fid
+            while True:
+                self.emit(ev="Yield", fid=x, v=self.absval(a["val"]))
+                self.stack.pop()
+                if x not in self.deleg_parent:
+                    break
+                x = self.deleg_parent[x][0]
             return "yield", a["val"]
         if op == "Await":
-            self.emit(ev="Suspend", fid=fid)
-            self.stack.pop()
+            x = fid
+            while True:
+                self.emit(ev="Suspend", fid=x)
+                self.stack.pop()
+                if x not in self.deleg_parent:
+                    break
+                x = self.deleg_parent[x][0]
             return "await", None
         if op == "Return":
             how = a["how"]
@@ -132,7 +172,7 @@ class Script:
         if op == "Raise":
             self.emit(ev="Raise", fid=fid)
             self.stack.pop()
-            self._finish(fid)
+            self._finish_raising(fid)
             return "raise", None
         if op == "Rebind":
             self.emit(ev="Rebind", fid=fid, v=self.absval(a["val"]))
@@ -229,8 +269,18 @@ class Script:
                 self.emit(ev="Propagate", fid=caller)
                 if self.stack and self.stack[-1] == caller:
                     self.stack.pop()
-                self._finish(caller)
+                self._finish_raising(caller)
             raise
+
+    def delegate(self, a):
+        """The running generator / coroutine is about to `yield from` / `await` the created object a["id"]."""
+        fid = a["id"]
+        parent = self.stack[-1]
+        self.cur_draw = a.get("draw", 0)
+        self.deleg_parent[fid] = (parent, a.get("catch", True))
+        self.emit(ev="Delegate", fid=fid, caller=parent, catch=a.get("catch", True), drawn=False, draw=self.cur_draw)
+        self._deleg_entry = (self.events[-1], len(self.draw_log))
+        return self.objs[fid]
 
     def caught(self):
         self.emit(ev="Caught", fid=self.stack[-1] if self.stack else 0)
